@@ -16,8 +16,10 @@ cd $M/repo
 echo "--- demo WITHOUT the change"
 cargo test -p $crate --offline --features "$feats" --test seed_demo 2>&1 | grep -E "^test result|^error|FAILED|panicked" | head -5
 git apply $S/_out/patch.diff || { echo "PATCH DOES NOT APPLY"; exit 2; }
-echo "--- existing tests WITH the change"
+echo "--- existing tests WITH the change (demo file moved away: it may need the hooks feature)"
+mv $crate/tests/seed_demo.rs /tmp/mutant/seed_demo.rs.keep
 cargo test -p $crate --offline 2>&1 | grep -E "^test result|^error(\[|:)|FAILED" | head -8
+mv /tmp/mutant/seed_demo.rs.keep $crate/tests/seed_demo.rs
 echo "--- demo WITH the change"
 cargo test -p $crate --offline --features "$feats" --test seed_demo 2>&1 | grep -E "^test result|^error|FAILED" | head -5
 git checkout -q -- . ; rm -f $crate/tests/seed_demo.rs
